@@ -25,6 +25,7 @@ fn run<const N: usize>(v: &Value) -> Result<Value> {
 }
 
 pub fn exec(v: &Value) -> Result<Value> {
+	if v["op"] == "build" { return super::sys::exec(v); }
 	match v["M"]["ns"].as_array().map(|a| a.len()) {
 		Some(2) => run::<2>(v), Some(3) => run::<3>(v), Some(4) => run::<4>(v),
 		n => bail!("unsupported N {n:?}"),
